@@ -87,7 +87,17 @@ def istream_read(ex, argv, ins):
     this, buf, n = argv
     w = _world(ex, this, IStreamModel)
     if not is_c(n):
-        raise Unsupported("istream::read with symbolic n")
+        # symbolic byte count: one decision per concrete count up to what the destination can hold (the access
+        # check below reports a count beyond it)
+        cap = 64
+        if isinstance(buf, Ptr) and buf.obj is not None and not buf.obj.external and is_c(buf.off):
+            cap = min(cap, max(0, buf.obj.size - buf.off) + 1)
+        for c in range(cap + 1):
+            if ex.decide(bv(n, 64) == z3.BitVecVal(c, 64), 'read-n'):
+                n = c
+                break
+        else:
+            raise Unsupported("istream::read with a symbolic n beyond %d" % cap)
     if n:
         ex.check_access(buf, n, True)
     st = w.state()
